@@ -115,7 +115,7 @@ def run(tier, seed):
     violations, cov_parts, all_execs, sink = [], {}, [], {}
 
     # ---- family A: blocking access forms (C01's generator), 1-4 processes
-    ws = datacheck.walks(40 if q else 600, 8, seed, cfg="cfg/Access_sim.cfg", module="Access_MC.tla")
+    ws = datacheck.walks(40 if q else 250, 8, seed, cfg="cfg/Access_sim.cfg", module="Access_MC.tla")
     exA = []
     for n, h in enumerate(ws):
         fmt = [None, "64BIT_OFFSET", "64BIT_DATA"][n % 3]
@@ -130,7 +130,7 @@ def run(tier, seed):
             exA.append(with_cfg(progs[np_], name, np_, env, PID))
     rA = datacheck.run(PID, tier, seed, exA, mcD, header=lambda evs: {"vars": c01.VT}, to_events=c01.serial, sink=sink)
     # ... and the schema with extents of 5 in other than the fastest dimension, under the multi-process configurations
-    ws = datacheck.walks(40 if q else 600, 8, seed + 1, cfg="cfg/Access_sim_c.cfg", module="Access_MC.tla")
+    ws = datacheck.walks(40 if q else 250, 8, seed + 1, cfg="cfg/Access_sim_c.cfg", module="Access_MC.tla")
     exC = []
     for n, h in enumerate(ws):
         fmt = [None, "64BIT_OFFSET", "64BIT_DATA"][n % 3]
@@ -149,7 +149,7 @@ def run(tier, seed):
 
     # ---- family N: nonblocking schedules (C02's generator), one process
     V, D = datagen.NB_VARS, datagen.NB_DIMS
-    ws = datacheck.walks(120 if q else 3000, 12, seed + 3, cfg="cfg/Nonblock_sim.cfg", module="Nonblock_MC.tla")
+    ws = datacheck.walks(120 if q else 1200, 12, seed + 3, cfg="cfg/Nonblock_sim.cfg", module="Nonblock_MC.tla")
     exN = []
     for n, h in enumerate(ws):
         tr = datagen.Translator(random.Random(seed * 77 + n), V, D, flex=True, conv=True, modes=True)
@@ -164,7 +164,7 @@ def run(tier, seed):
         raise vlib.InfraError("MP design check failed:\n" + mcM["out"][-3000:])
     exM = []
     for np_, cfg in [(2, "cfg/MP_sim2.cfg"), (3, "cfg/MP_sim.cfg")]:
-        for n, h in enumerate(c05.walks("MP_MC.tla", cfg, 50 if q else 1500, 12, seed + 20 + np_)):
+        for n, h in enumerate(c05.walks("MP_MC.tla", cfg, 50 if q else 500, 12, seed + 20 + np_)):
             tr = mpgen.Translator(random.Random(seed * 31 + n), np_)
             prog = {"x": "M%d_%d" % (np_, n), "steps": mpgen.fixture(fmt=[None, "64BIT_OFFSET", "64BIT_DATA"][n % 3]) + tr.steps(h)}
             for name, env in CFG_M[np_]:
@@ -178,7 +178,7 @@ def run(tier, seed):
     exF = []
     i = 0
     for cfg, fmt in [("cfg/File_sim_ok.cfg", 1), ("cfg/File_sim_ok2.cfg", 2), ("cfg/File_sim_ok5.cfg", 5), ("cfg/File_sim.cfg", 1)]:
-        for h in filecheck.walks(cfg, 20 if q else 500, 16, seed + 300 + i):
+        for h in filecheck.walks(cfg, 20 if q else 200, 16, seed + 300 + i):
             fam = ["ascii", "utf8", "collide"][i % 3]
             for name, np_, info, env in CFG_F:
                 tr = filegen.Translator(random.Random(seed * 13 + i), fmt=fmt, family=fam, info=info, np=np_)
@@ -189,7 +189,7 @@ def run(tier, seed):
     import c06
     g = c06.grow_scenarios(random.Random(seed + 11), "thorough")
     random.Random(seed + 12).shuffle(g)
-    for e in g[:80 if q else 2000]:
+    for e in g[:80 if q else 600]:
         e = dict(e, x="G" + e["x"][1:], prog="G%s#np%d" % (e["x"][1:], e["np"]), cfgname="np%d" % e["np"])
         exF.append(e)
     rF = filecheck.run(PID, tier, seed, exF, mcF, "", sink=sink)
